@@ -1407,14 +1407,15 @@ class ExecutionTracer(AbstractExecutionTracer):  # noqa: PLR0904
             # Might be necessary when using Proxies.
             value = tt.unwrap(value)
             if value:
-                if isinstance(value, Sized):
+                if isinstance(value, Sized) and not hasattr(type(value), "__bool__"):
                     # Sized instances evaluate to False if they are empty,
                     # and to True otherwise, thus we can use their size as a distance
-                    # measurement.
+                    # measurement. (Unless they define their truth value themselves:
+                    # the module under test does not ask those for their size.)
                     distance_false = len(value)
                 elif is_numeric(value):
                     # For numeric value, we can use their absolute value
-                    distance_false = float(abs(value))
+                    distance_false = _positive_distance(lambda: float(abs(value)))
                 else:
                     # Necessary to use inf instead of 1.0 here,
                     # so that a value for which we can't compute a false distance
